@@ -93,3 +93,31 @@ example : ((init (some defaultSchedule) 1086400).bind fun p => (add p 1 900000 (
     (2073599 : Int) ≤ 900000 + defaultUptime := by decide
 
 end TmVerif.Reboot
+
+namespace TmVerif.Reboot
+open TmVerif.ExtReboot
+
+/-- **a slot survives every tick until its time has passed**: a bucket of the partition that is not yet in the past
+    at `now` is still there after `tick now`, with the same servers in it — so the reboot time a server was given
+    (`C03_add_bucket`: its `valid_until` is the timestamp of the bucket holding it) keeps naming a bucket that holds
+    it for as long as that time is ahead. -/
+theorem C03_tick_keeps_slot {p p' : Part} {n0 now : Int} (hs : SchedOk p.sched) (hok : POk p n0)
+    (h : tick p now = some p') {b : Bkt} (hb : b ∈ p.buckets) (hahead : now ≤ b.ts) : b ∈ p'.buckets := by
+  unfold tick at h
+  cases hg : grow p.sched (now + defaultUptime) (growFuel (now + defaultUptime) p.day) p.day p.last p.buckets with
+  | none => rw [hg] at h; simp at h
+  | some r =>
+    obtain ⟨day, last, bs⟩ := r
+    rw [hg] at h
+    simp only at h
+    cases hd : dropOld now bs with
+    | none => rw [hd] at h; simp at h
+    | some bs' =>
+      rw [hd] at h
+      have h := Option.some.inj h
+      subst h
+      obtain ⟨gi, _, ⟨new, hnew, _⟩, _, _⟩ := grow_spec hs _ _ _ _ _ _ _ _ hok.toGInv hg
+      have hin : b ∈ bs := by rw [hnew]; exact List.mem_append_left _ hb
+      exact ((dropOld_mem now bs bs' gi.sorted hd) b).2 ⟨hin, hahead⟩
+
+end TmVerif.Reboot
